@@ -46,6 +46,7 @@ int main(int argc, char **argv)
             else if (!strcmp(s, "hypoexponential")) x = cmb_random_hypoexponential(vn, p + 1);
             else if (!strcmp(s, "hyperexponential")) x = cmb_random_hyperexponential(vn, p + 1, p + 1 + vn);
             else if (!strcmp(s, "std_gamma")) x = cmb_random_std_gamma(p[0]);
+            else if (!strcmp(s, "std_gamma_after")) { (void)cmb_random_std_gamma(p[0]); x = cmb_random_std_gamma(p[1]); }     /* always preceded by a draw with another shape */
             else if (!strcmp(s, "gamma")) x = cmb_random_gamma(p[0], p[1]);
             else if (!strcmp(s, "std_beta")) x = cmb_random_std_beta(p[0], p[1]);
             else if (!strcmp(s, "beta")) x = cmb_random_beta(p[0], p[1], p[2], p[3]);
